@@ -370,6 +370,72 @@ pub fn run(rc: &RunCtx) -> Outcome {
         o.coverage["out_of_range_default_declarations_checked"] = json!(items.len() * 2);
         o.coverage["out_of_range_default_declarations_accepted"] = json!(accepted);
     }
+    // C19: "(Applies to bitfields whose fields are all readable and not arrays; others do not compile with
+    // `debug`.)" -- the same declarations with one field made write-only, accessor-less or an array
+    if prop == "C19" {
+        let ro = RenderOpts::default();
+        let mut items: Vec<(usize, String)> = Vec::new();
+        let mut ls: Vec<(Layout, &'static str)> = Vec::new();
+        let take = rc.tier.pick(240usize, 2400usize);
+        for (n, (_, l)) in layouts.iter().enumerate().take(take) {
+            if l.fields.is_empty() {
+                continue;
+            }
+            let fi = n % l.fields.len();
+            let mut variants: Vec<(Layout, &'static str)> = Vec::new();
+            let mut a = l.clone();
+            a.fields[fi].access = Access::W;
+            variants.push((a, "write-only"));
+            let mut a = l.clone();
+            a.fields[fi].access = Access::None;
+            variants.push((a, "no-accessors"));
+            let f = &l.fields[fi];
+            if f.ranges.len() == 1 && f.array.is_none() && f.highest_bit() + f.width() < l.base_bits {
+                let mut a = l.clone();
+                a.fields[fi].array = Some(ArrayDecl { count: 2, stride: None, colon: false });
+                variants.push((a, "array"));
+            }
+            for (v, what) in variants {
+                // apart from `debug`, the declaration stays valid
+                let mut plain = v.clone();
+                plain.debug = false;
+                for i in plain.inners.iter_mut() {
+                    i.debug = false;
+                }
+                if !rules::layout_verdict(&plain).is_valid() || rules::api_name_collision(&v).is_some() {
+                    continue;
+                }
+                items.push((ls.len(), render_layout(&v, &ro)));
+                ls.push((v, what));
+            }
+        }
+        let mut accepted = 0u64;
+        let mut per_kind: BTreeMap<String, u32> = BTreeMap::new();
+        for mp in ["dev"] {
+            let v = crate::vprops::check_decls(rc, "debugneg", &items, mp);
+            for (i, errs) in v {
+                if !errs.is_empty() {
+                    continue;
+                }
+                let n = per_kind.entry(ls[i].1.to_string()).or_insert(0);
+                if *n >= 2 {
+                    accepted += 1;
+                    continue;
+                }
+                if crate::vprops::check_isolated(rc, &items[i].1, None, mp).is_empty() {
+                    accepted += 1;
+                    *n += 1;
+                    o.violations.push(Violation {
+                        sig: format!("debug-accepted-with-{}-field/{}", ls[i].1, base_class(ls[i].0.base_bits)),
+                        summary: format!("C19: a `debug` bitfield with a {} field compiles, but only bitfields whose fields are all readable and not arrays may\n{}", ls[i].1, items[i].1),
+                        replay: json!({"kind": "verdict", "source": items[i].1, "expect_accept": false, "macro_profile": mp, "layout": ls[i].0}),
+                    });
+                }
+            }
+        }
+        o.coverage["debug_declarations_with_an_unreadable_or_array_field"] = json!(items.len());
+        o.coverage["of_which_accepted"] = json!(accepted);
+    }
     if prop == "C11" {
         o.coverage["overhang_probes_generated"] = json!(probes_total);
         o.coverage["overhang_probes_accepted_by_the_macro_and_run"] = json!(probes_accepted);
